@@ -199,6 +199,8 @@ def pipe_blocked_state(pid):
     if sc is None:
         return None
     nr, args = sc
+    if nr == 7:
+        return poll_blocked_state(pid, args)
     if nr not in (0, 1):
         return None
     fd = args[0]
@@ -232,6 +234,49 @@ def pipe_blocked_state(pid):
             return ("write", fd, ino, not moving)
     except OSError:
         return None
+
+
+def poll_blocked_state(pid, args):
+    """pid sits in poll() on pipe read ends (the shell draining its capture pipes):
+    settled when none of the polled pipes has data or has lost all its writers."""
+    addr, nfds = args[0], args[1]
+    if nfds <= 0 or nfds > 8:
+        return None
+    try:
+        with open("/proc/%d/mem" % pid, "rb", 0) as f:
+            f.seek(addr)
+            raw = f.read(8 * nfds)
+    except (OSError, ValueError, OverflowError):
+        return None
+    if len(raw) != 8 * nfds:
+        return None
+    first = None
+    for i in range(nfds):
+        fd, events, _ = struct.unpack_from("ihh", raw, 8 * i)
+        if fd < 0 or events == 0:
+            continue
+        link = fd_link(pid, fd)
+        ino = pipe_ino(link)
+        if ino is None or not (events & select.POLLIN):
+            return None
+        try:
+            h = os.open("/proc/%d/fd/%d" % (pid, fd), os.O_RDONLY | os.O_NONBLOCK)
+        except OSError:
+            return None
+        try:
+            p = select.poll()
+            p.register(h, select.POLLIN)
+            r = p.poll(0)
+            moving = bool(r and (r[0][1] & (select.POLLIN | select.POLLHUP | select.POLLERR)))
+        finally:
+            os.close(h)
+        if moving:
+            return ("read", fd, ino, False)
+        if first is None:
+            first = (fd, ino)
+    if first is None:
+        return None
+    return ("read", first[0], first[1], True)
 
 
 class Puppet:
